@@ -7,7 +7,7 @@ import multiprocessing as mp
 from concurrent.futures import ThreadPoolExecutor
 
 from . import tlc, single_exec as SX
-from .common import Run, Machinery
+from .common import worker_pool, Run, Machinery
 
 ARR = {"NTC": 3, "TParent": "<-ArrTParent", "NSC": 4, "Meta": "<-ArrMeta", "SParent": "<-ArrSParent"}
 ASSUME = [
@@ -92,7 +92,7 @@ def _replay(args):
 
 
 def execute(traces, NI):
-    with mp.get_context("fork").Pool(16) as pool:
+    with worker_pool(mp.get_context("fork"), 16) as pool:
         obs = pool.map(_replay, [(t, NI) for t in traces], chunksize=64)
     return [{"id": i + 1, "events": o} for i, o in enumerate(obs)]
 
